@@ -385,8 +385,11 @@ def find_item(src, path, toks=None):
     item = None
     for comp in path:
         comp = comp.strip()
-        kw, _, rest = comp.partition(" ")
-        rest = rest.strip()
+        if comp.startswith("impl") and not comp[4:5].isalnum():
+            kw, rest = "impl", comp[4:].strip()
+        else:
+            kw, _, rest = comp.partition(" ")
+            rest = rest.strip()
         # optional ordinal suffix  "#2" to pick the n-th match
         ordinal = 1
         m = re.search(r"\s#(\d+)$", rest)
